@@ -67,48 +67,432 @@ def _families():
     return PlanarCode, ToricCode, RotatedPlanarCode, RotatedToricCode, Color666Code
 
 
-def cold_queries(ctx):
-    """Read-only index queries (in range, on the boundary and outside the lattice) and documented no-op Pauli calls on a
-    FRESH code object of every size, in random order, BEFORE its matrices are first computed in this process; the
-    matrices are then computed on that same object.  Everything the family checks decide afterwards (rows against the
-    model, validity, ranks) is therefore decided on matrices computed after such a history."""
+FAMILY_OF = {'PlanarCode': 'planar', 'ToricCode': 'toric', 'RotatedPlanarCode': 'rotplanar',
+             'RotatedToricCode': 'rottoric', 'Color666Code': 'color'}
+MATRIX_ATTRS = ('stabilizers', 'logical_xs', 'logical_zs', 'logicals')
+
+
+def family_sizes(ctx, per_family=False):
+    """Every (class, args) in the size ranges the family checks of C07 / C08 decide (quick: planar, toric <= 10x10,
+    rotated planar <= 11x11, rotated toric <= 12x12, colour <= 13; thorough 16 / 17 / 18 / 21)."""
+    PlanarCode, ToricCode, RotatedPlanarCode, RotatedToricCode, Color666Code = _families()
+    pt, rp, rt, co = ctx.pick((10, 11, 12, 13), (16, 17, 18, 21))
+    fams = [[(PlanarCode, (r, c)) for r in range(2, pt + 1) for c in range(2, pt + 1)],
+            [(ToricCode, (r, c)) for r in range(2, pt + 1) for c in range(2, pt + 1)],
+            [(RotatedPlanarCode, (r, c)) for r in range(3, rp + 1) for c in range(3, rp + 1)],
+            [(RotatedToricCode, (r, c)) for r in range(2, rt + 1, 2) for c in range(2, rt + 1, 2)],
+            [(Color666Code, (s,)) for s in range(3, co + 1, 2)]]
+    return fams if per_family else [x for f in fams for x in f]
+
+
+def _rep(cls, args, **kw):
+    return dict({'family': FAMILY_OF.get(cls.__name__, cls.__name__), 'class': cls.__name__, 'size': list(args)}, **kw)
+
+
+def rank_gf2(M):
+    """GF(2) rank of a 0/1 matrix (rows packed into Python ints, elimination on leading bits)"""
+    M = np.asarray(M).astype(np.uint8) & 1
+    basis = {}
+    for row in np.packbits(M, axis=1) if M.size else []:
+        v = int.from_bytes(row.tobytes(), 'big')
+        while v:
+            h = v.bit_length()
+            b = basis.get(h)
+            if b is None:
+                basis[h] = v
+                break
+            v ^= b
+    return len(basis)
+
+
+def symplectic_product(A, B, n):
+    """(i, j) = 1 iff row i of A anticommutes with row j of B (binary symplectic form, own arithmetic)"""
+    A, B = np.asarray(A).astype(np.float64), np.asarray(B).astype(np.float64)
+    return np.rint(A[:, :n] @ B[:, n:].T + A[:, n:] @ B[:, :n].T).astype(np.int64) % 2
+
+
+def validity_problems(nkd, S, X, Z, L=None):
+    """The C07 statement evaluated directly on a set of published matrices: list of (short key, text, details);
+    empty when stabilizers commute mutually and with the logicals, X_i/Z_j anticommute iff i = j, rank S = n-k, the 2k
+    logicals are independent of S, and n, k agree with the shapes."""
+    out = []
+    try:
+        n, k, d = (int(v) for v in nkd)
+    except Exception:  # noqa
+        return [('n_k_d', 'n_k_d is not a triple of integers', {'n_k_d': repr(nkd)})]
+    S, X, Z = np.asarray(S), np.asarray(X), np.asarray(Z)
+    if S.ndim != 2 or S.shape[1] != 2 * n or X.shape != (k, 2 * n) or Z.shape != (k, 2 * n) or S.shape[0] < n - k:
+        return [('shapes', 'n, k disagree with the matrix shapes',
+                 {'n_k_d': [n, k, d], 'shapes': [list(S.shape), list(X.shape), list(Z.shape)]})]
+    for nm, M in (('stabilizers', S), ('logical_xs', X), ('logical_zs', Z)):
+        if not np.issubdtype(M.dtype, np.integer) or not np.array_equal(M, M % 2):
+            return [('binary', nm + ' is not a binary integer matrix', {})]
+    XZ = np.vstack([X, Z])
+    if L is not None and not np.array_equal(np.asarray(L), XZ):
+        out.append(('logicals', 'logicals is not logical_xs stacked on logical_zs', {}))
+    a = symplectic_product(S, S, n)
+    if a.any():
+        out.append(('stab-commute', 'two published stabilizers anticommute', {'rows': [int(v) for v in np.argwhere(a)[0]]}))
+    a = symplectic_product(S, XZ, n)
+    if a.any():
+        i, j = (int(v) for v in np.argwhere(a)[0])
+        out.append(('stab-logical', 'a published stabilizer anticommutes with a logical', {'stabilizer': i, 'logical': j}))
+    a = symplectic_product(XZ, XZ, n)
+    want = np.zeros((2 * k, 2 * k), dtype=np.int64)
+    for i in range(k):
+        want[i, k + i] = want[k + i, i] = 1
+    if not np.array_equal(a, want):
+        out.append(('logical-commute', 'logical X_i / Z_j do not anticommute exactly when i = j',
+                    {'logicals': [int(v) for v in np.argwhere(a != want)[0]]}))
+    rs = rank_gf2(S)
+    if rs != n - k:
+        out.append(('rank', 'stabilizer matrix has GF(2) rank %d, n-k = %d' % (rs, n - k), {}))
+    else:
+        rl = rank_gf2(np.vstack([S, XZ]))
+        if rl != n + k:
+            out.append(('rank-logicals', 'stabilizers + logicals have GF(2) rank %d, n+k = %d' % (rl, n + k), {}))
+    return out
+
+
+def _viol(ctx, key, what, rep, cap=4):
+    """ctx.violation, at most `cap` per (key, family): one faulty family must not crowd out the others' replays"""
+    seen = ctx.__dict__.setdefault('_lat_viol_count', {})
+    k = (key, rep.get('family'), rep.get('check'))
+    seen[k] = seen.get(k, 0) + 1
+    if seen[k] <= cap:
+        ctx.violation(key, what, rep)
+
+
+def read_attr(ctx, code, attr, rep):
+    """One read of a published attribute ('validate()' = the call) on an ACCEPTED size; an exception is itself a
+    concrete failing input (key matrices-raise).  Returns (ok, value)."""
+    try:
+        if attr == 'validate()':
+            return True, code.validate()
+        return True, getattr(code, attr)
+    except Exception as e:  # noqa
+        if attr == 'validate()' and type(e).__name__ == 'QecsimError':
+            _viol(ctx, 'validate-fails', 'validate() of a code of an accepted size reports an invalid code: %s' % e,
+                  dict(rep, attribute=attr, exception='%s: %s' % (type(e).__name__, str(e)[:200])))
+        else:
+            _viol(ctx, 'matrices-raise', '%s of a code of an accepted size raises %s' % (attr, type(e).__name__),
+                  dict(rep, attribute=attr, exception='%s: %s' % (type(e).__name__, str(e)[:200])))
+        return False, None
+
+
+def _snapshot(vals):
+    return {a: np.array(vals[a]).copy() for a in MATRIX_ATTRS if vals.get(a) is not None}
+
+
+def _same(a, b):
+    a, b = np.asarray(a), np.asarray(b)
+    return a.shape == b.shape and np.array_equal(a, b)
+
+
+def _canonical_reads(ctx, cls, args, rep):
+    """a fresh equal object read in the usual order (stabilizers, logical_xs, logical_zs, logicals, n_k_d)"""
+    code = cls(*args)
+    vals = {}
+    for a in ('stabilizers', 'logical_xs', 'logical_zs', 'logicals', 'n_k_d'):
+        ok, v = read_attr(ctx, code, a, dict(rep, object='fresh equal object, usual read order'))
+        vals[a] = v if ok else None
+    return vals
+
+
+def _index_query(rng, cls, code, pauli, preds, hi, hist):
+    Color666Code = _families()[4]
+    ToricCode = _families()[1]
+    idx = (rng.randint(-3, hi), rng.randint(-3, hi))
+    if cls is ToricCode:
+        idx = (rng.randint(-1, 2),) + idx
+    try:
+        r = rng.random()
+        if r < 0.7 and preds:
+            nm = rng.choice(preds)
+            hist.append('%s%s' % (nm, idx))
+            getattr(code, nm)(idx)
+        elif r < 0.85:
+            if cls is Color666Code:
+                op = rng.choice('XZ')
+                hist.append('pauli.plaquette(%s, %s)' % (op, idx))
+                pauli.plaquette(op, idx)
+            else:
+                hist.append('pauli.plaquette(%s)' % (idx,))
+                pauli.plaquette(idx)
+        else:
+            op = rng.choice('XYZ')
+            hist.append('pauli.site(%s, %s)' % (op, idx))
+            pauli.site(op, idx)
+        return 1
+    except Exception:  # noqa  (out-of-lattice indices may be refused; only the later matrices matter here)
+        hist[-1] += ' -> raised'
+        return 0
+
+
+def cold_queries(ctx, sizes=None, on_difference=None):
+    """A cold history on a FRESH code object of every size of the family checks' range, BEFORE that size's matrices are
+    first computed in this process:
+      * read-only index queries (in range, on the boundary, outside the lattice) and documented no-op Pauli calls, random order;
+      * then the FIRST reads of stabilizers / logical_xs / logical_zs / logicals / n_k_d / validate() in a RANDOM order, some
+        twice, with further index queries in between.
+    An exception from a read is a violation (matrices-raise).  The matrices read on that object are then judged directly
+    (commutation, ranks, shapes: cold-history-matrices), must be stable between reads, and must equal those of a fresh
+    equal object read in the usual order (matrices-history-dependent).  Everything the family checks decide afterwards
+    (rows against the model) is decided on matrices first computed under such a history; the snapshots are compared
+    again at the end of the run (final_recheck)."""
     import inspect
     rng = ctx.rng
-    PlanarCode, ToricCode, RotatedPlanarCode, RotatedToricCode, Color666Code = _families()
-    top = ctx.pick(9, 13)
-    sizes = [(PlanarCode, (r, c)) for r in range(2, top) for c in range(2, top)]
-    sizes += [(ToricCode, (r, c)) for r in range(2, top) for c in range(2, top)]
-    sizes += [(RotatedPlanarCode, (r, c)) for r in range(3, top + 1) for c in range(3, top + 1)]
-    sizes += [(RotatedToricCode, (r, c)) for r in range(2, top + 2, 2) for c in range(2, top + 2, 2)]
-    sizes += [(Color666Code, (s,)) for s in range(3, top + 6, 2)]
-    ncalls = 0
+    if sizes is None:
+        sizes = family_sizes(ctx)
+    snaps = ctx.__dict__.setdefault('_cold_snapshots', {})
+    ncalls = nreads = 0
     for cls, args in sizes:
-        code = cls(*args)
+        rep = _rep(cls, args, check='cold-history')
+        hist = []
+        try:
+            code = cls(*args)
+        except Exception as e:  # noqa
+            _viol(ctx, 'matrices-raise', 'constructor raises on an accepted size', dict(rep, attribute='__init__',
+                                                                                           exception=repr(e)[:200]))
+            continue
         hi = 2 * max(args) + 3
         preds = [nm for nm, f in inspect.getmembers(cls, predicate=inspect.isfunction)
                  if nm.startswith('is_') and len(inspect.signature(f).parameters) == 2]
         pauli = code.new_pauli()
         for _ in range(rng.randint(0, 24)):
-            idx = (rng.randint(-3, hi), rng.randint(-3, hi))
-            if cls is ToricCode:
-                idx = (rng.randint(-1, 2),) + idx
+            ncalls += _index_query(rng, cls, code, pauli, preds, hi, hist)
+        order = list(MATRIX_ATTRS) + ['n_k_d', 'validate()']
+        rng.shuffle(order)
+        for _ in range(rng.randint(0, 3)):
+            order.insert(rng.randint(1, len(order)), rng.choice(order))
+        vals = {}
+        for a in order:
+            if rng.random() < 0.25:
+                ncalls += _index_query(rng, cls, code, pauli, preds, hi, hist)
+            hist.append(a)
+            ok, v = read_attr(ctx, code, a, dict(rep, history=list(hist)))
+            nreads += 1
+            if not ok or a == 'validate()':
+                continue
+            if a in vals and not (_same(vals[a], v) if a != 'n_k_d' else tuple(vals[a]) == tuple(v)):
+                _viol(ctx, 'matrices-unstable', 'two reads of %s on one code object differ' % a, dict(rep, history=list(hist)))
+            if a not in vals:
+                vals[a] = np.array(v).copy() if a != 'n_k_d' else v
+        ctx.count(('cold', cls.__name__, args), True, 'cold-history/' + rep['family'],
+                  dict(rep, history=list(hist)) if cls.__name__ == 'RotatedToricCode' and args == (2, 4) else None)
+        if any(a not in vals for a in MATRIX_ATTRS + ('n_k_d',)):
+            continue
+        probs = validity_problems(vals['n_k_d'], vals['stabilizers'], vals['logical_xs'], vals['logical_zs'], vals['logicals'])
+        for key, what, det in probs:
+            _viol(ctx, 'cold-history-matrices', 'matrices first read in an unusual order on a fresh code object: ' + what,
+                          dict(rep, problem=key, history=list(hist), **det))
+        fresh = _canonical_reads(ctx, cls, args, rep)
+        diff = [a for a in MATRIX_ATTRS if fresh.get(a) is not None and not _same(fresh[a], vals[a])]
+        if fresh.get('n_k_d') is not None and tuple(fresh['n_k_d']) != tuple(vals['n_k_d']):
+            diff.append('n_k_d')
+        if diff:
+            _viol(ctx, 'matrices-history-dependent', '%s of a code object depend on the order of the first reads (differ '
+                          'from a fresh equal object read in the usual order)' % ', '.join(diff), dict(rep, history=list(hist)))
+        if (diff or probs) and on_difference is not None:
+            on_difference(dict(rep, history=list(hist)), vals['n_k_d'], vals['stabilizers'])
+        snaps[(cls, args)] = {a: np.packbits(np.asarray(vals[a]).astype(np.uint8)) for a in MATRIX_ATTRS}
+    ctx.notes.append('cold histories: on a fresh object of each of %d sizes, index queries then the first reads of the '
+                     'published attributes in random order (some twice); matrices judged directly and against a fresh '
+                     'equal object read in the usual order' % len(sizes))
+    d = ctx.extra.setdefault('cold_queries', {'code_objects': 0, 'calls': 0, 'first_reads': 0})
+    d['code_objects'] += len(sizes)
+    d['calls'] += ncalls
+    d['first_reads'] += nreads
+
+
+def final_recheck(ctx):
+    """End of the run: a fresh equal object of every size with a cold history still publishes the same matrices."""
+    snaps = ctx.__dict__.pop('_cold_snapshots', {})
+    for (cls, args), snap in snaps.items():
+        rep = _rep(cls, args, check='end-of-run')
+        code = cls(*args)
+        for a in MATRIX_ATTRS:
+            ok, v = read_attr(ctx, code, a, dict(rep, stage='end of run'))
+            if ok and not np.array_equal(np.packbits(np.asarray(v).astype(np.uint8)), snap[a]):
+                _viol(ctx, 'matrices-changed-during-run', '%s published at the end of the run differ from those first '
+                              'published for this size' % a, rep)
+    ctx.count(('final-recheck',), True, 'final-recheck', None, n=len(snaps))
+
+
+class _Interrupt(Exception):
+    """private exception injected into a lazy evaluation"""
+
+
+def _inject(exc_type, k, root):
+    """profile hook raising exc_type at the k-th Python-level call into code under `root`"""
+    state = {'calls': 0, 'fired': False}
+
+    def hook(frame, event, arg):
+        if event == 'call' and not state['fired'] and frame.f_code.co_filename.startswith(root) \
+                and frame.f_code.co_name != '<module>':
+            state['calls'] += 1
+            if state['calls'] == k:
+                state['fired'] = True
+                raise exc_type('injected by the harness at qecsim call %d' % k)
+    return hook, state
+
+
+def interrupted_evaluations(ctx, on_difference=None):
+    """CRASH POINTS during lazy evaluation.  On a few not-yet-evaluated sizes of every family: several fresh equal
+    objects; on each, the FIRST evaluation of one matrix attribute is aborted by an exception (a private Exception class,
+    KeyboardInterrupt or MemoryError) raised at a random k-th call inside qecsim code; then the attribute is read again ON
+    THE SAME OBJECT, followed by the other attributes.  What that object publishes must satisfy the property directly and
+    equal the matrices of a fresh equal object read in the usual order (which the family checks tie to the model)."""
+    import sys
+    import qecsim
+    rng = ctx.rng
+    root = os.path.dirname(os.path.abspath(qecsim.__file__)) + os.sep
+    per = ctx.pick(3, 6)
+    nobj = ctx.pick(4, 6)
+    chosen = []
+    for fam in family_sizes(ctx, per_family=True):
+        small = [s for s in fam if max(s[1]) <= 7]
+        pool = [s for s in fam if s not in small]
+        chosen += rng.sample(small, min(per - 1, len(small))) + rng.sample(pool, min(1, len(pool)))
+    fired = 0
+    for cls, args in chosen:
+        rep = _rep(cls, args, check='interrupted-evaluation')
+        try:
+            n = int(cls(*args).n_k_d[0])
+        except Exception:  # noqa  (reported by cold_queries)
+            continue
+        objs = []
+        for j in range(nobj):
+            code = cls(*args)
+            attr = rng.choice(MATRIX_ATTRS + ('stabilizers', 'validate()'))
+            exc_type = rng.choice([_Interrupt, KeyboardInterrupt, MemoryError])
+            k = 1 + int((10 * n) ** rng.random()) if rng.random() < 0.5 else rng.randint(1, 6 * n)
+            hook, state = _inject(exc_type, k, root)
+            outcome = 'completed'
             try:
-                r = rng.random()
-                if r < 0.7 and preds:
-                    getattr(code, rng.choice(preds))(idx)
-                elif r < 0.85:
-                    if cls is Color666Code:
-                        pauli.plaquette(rng.choice('XZ'), idx)
-                    else:
-                        pauli.plaquette(idx)
-                else:
-                    pauli.site(rng.choice('XYZ'), idx)
-                ncalls += 1
-            except Exception:  # noqa  (out-of-lattice indices may be refused; only the later matrices matter here)
-                pass
-        code.stabilizers, code.logicals, code.n_k_d
-    ctx.extra['cold_queries'] = {'code_objects': len(sizes), 'calls': ncalls}
-    ctx.count(('cold-queries',), True, 'cold-query-history', None, n=len(sizes))
+                sys.setprofile(hook)
+                try:
+                    code.validate() if attr == 'validate()' else getattr(code, attr)
+                finally:
+                    sys.setprofile(None)
+            except (_Interrupt, KeyboardInterrupt, MemoryError) as e:
+                outcome = 'interrupted' if state['fired'] else 'raised ' + type(e).__name__
+            except Exception as e:  # noqa  (the injected exception re-wrapped by the implementation)
+                outcome = 'interrupted (surfaced as %s)' % type(e).__name__ if state['fired'] else 'raised ' + type(e).__name__
+            fired += state['fired']
+            objs.append((code, '%s first evaluated with %s injected at qecsim call %d: %s'
+                         % (attr, exc_type.__name__, k, outcome), attr, state['fired']))
+            ctx.count(('interrupt', cls.__name__, args, attr, k), state['fired'], 'interrupted-evaluation/' + rep['family'],
+                      dict(rep, history=objs[-1][1]) if len(objs) == 1 and cls.__name__ == 'ToricCode' else None)
+        results = []
+        for code, what, attr, was_fired in objs:
+            hist = [what]
+            order = [a for a in MATRIX_ATTRS if a != attr]
+            rng.shuffle(order)
+            order = ([attr] if attr != 'validate()' else []) + order + ['n_k_d', 'validate()']
+            vals = {}
+            for a in order:
+                hist.append(a)
+                ok, v = read_attr(ctx, code, a, dict(rep, history=list(hist)))
+                if ok and a != 'validate()':
+                    vals[a] = v
+            if any(a not in vals for a in MATRIX_ATTRS + ('n_k_d',)):
+                continue
+            results.append((hist, vals))
+        fresh = _canonical_reads(ctx, cls, args, rep)
+        for hist, vals in results:
+            diff = [a for a in MATRIX_ATTRS if fresh.get(a) is not None and not _same(fresh[a], vals[a])]
+            if diff:
+                _viol(ctx, 'matrices-after-interrupt', 'after an aborted first evaluation the same code object publishes %s '
+                              'different from a fresh equal object' % ', '.join(diff), dict(rep, history=hist))
+            probs = validity_problems(vals['n_k_d'], vals['stabilizers'], vals['logical_xs'], vals['logical_zs'], vals['logicals'])
+            for key, what, det in probs:
+                _viol(ctx, 'matrices-after-interrupt', 'after an aborted first evaluation the same code object publishes '
+                              'invalid matrices: ' + what, dict(rep, problem=key, history=hist, **det))
+            if (diff or probs) and on_difference is not None:
+                on_difference(dict(rep, history=hist), vals['n_k_d'], vals['stabilizers'])
+    ctx.notes.append('crash points: %d first evaluations aborted by an injected exception at a random qecsim call, then '
+                     're-read on the same object (%d sizes, all five families)' % (fired, len(chosen)))
+    ctx.extra['interrupted_evaluations'] = {'sizes': len(chosen), 'objects': len(chosen) * nobj, 'interrupts_fired': fired}
+
+
+def _child(ctx, pyflags, codes, rows, timeout=600):
+    """run harness/lat_child.py in a child interpreter with the given interpreter options; list of records"""
+    import sys
+    env = dict(os.environ)
+    env.pop('PYTHONOPTIMIZE', None)
+    env['PYTHONPATH'] = os.path.join(os.environ.get('VERIF_REPO', '/repo'), 'src')
+    env.setdefault('PYTHONHASHSEED', '0')
+    env['PYTHONDONTWRITEBYTECODE'] = '1'
+    p = subprocess.run([sys.executable] + list(pyflags) + ['-W', 'ignore', os.path.join(VERIF, 'harness', 'lat_child.py')],
+                       input=json.dumps({'rows': rows, 'codes': codes}), capture_output=True, text=True, timeout=timeout,
+                       env=env, cwd=BUILD)
+    lines = [json.loads(l) for l in p.stdout.split('\n') if l.startswith('{')]
+    return p.returncode, lines, p.stderr[-1500:]
+
+
+def optimised_mode(ctx, on_difference=None):
+    """INTERPRETER CONFIGURATION.  The documented optimised mode (`python -O`, thorough tier also -OO): a child interpreter
+    computes stabilizers / logical_xs / logical_zs / logicals / n_k_d / validate() of every family size of the checks'
+    range and of the basic codes; they must equal what this (normal) interpreter publishes, which the family checks compare
+    with the model row by row.  on_difference(replay, n_k_d, S) is called with the child's stabilizers of a differing size."""
+    from harness.lat_child import matrix_digest
+    from qecsim.models.basic import FiveQubitCode, SteaneCode
+    codes, here = [], {}
+    fam_of = dict(FAMILY_OF, FiveQubitCode='five', SteaneCode='steane')
+    cls_of = {fam_of[c.__name__]: c for c in _families() + (FiveQubitCode, SteaneCode)}
+    for cls, args in family_sizes(ctx) + [(FiveQubitCode, ()), (SteaneCode, ())]:
+        fam = fam_of[cls.__name__]
+        codes.append([fam, list(args)])
+        try:
+            code = cls(*args)
+            here[(fam, tuple(args))] = ([int(v) for v in code.n_k_d],
+                                        matrix_digest((code.stabilizers, code.logical_xs, code.logical_zs)))
+        except Exception:  # noqa  (reported as matrices-raise by the cold histories / family checks)
+            here[(fam, tuple(args))] = None
+    for flags in ctx.pick((['-O'],), (['-O'], ['-OO'])):
+        mode = 'python ' + ' '.join(flags)
+        rc, recs, err = _child(ctx, flags, codes, False)
+        head = recs[0].get('flags', {}) if recs else {}
+        ok = rc == 0 and len(recs) == len(codes) + 1 and head.get('optimize', 0) >= 1 and head.get('debug') is False
+        ctx.obligation('child interpreter (%s) returned the matrices of all %d codes' % (mode, len(codes)), ok, err)
+        ctx.notes.append('interpreter configuration: matrices of %d codes recomputed under %s and compared' % (len(codes), mode))
+        differing = []
+        for rec in recs[1:]:
+            key = (rec['family'], tuple(rec['args']))
+            rep = {'family': rec['family'], 'size': rec['args'], 'interpreter': mode}
+            ctx.count(('optimised', mode, key), True, 'optimised-mode/' + rec['family'], rep if key == ('rotplanar', (3, 4)) else None)
+            if here.get(key) is None:
+                continue
+            if 'error' in rec:
+                _viol(ctx, 'optimised-mode-matrices', 'under %s the matrices of an accepted size raise %s' % (mode, rec['error']), rep)
+            elif (rec['n_k_d'], rec['digest']) != here[key] or rec.get('validate') != 'ok':
+                differing.append(key)
+        if differing:
+            rc, recs, err = _child(ctx, flags, [[f, list(a)] for f, a in differing[:12]], True)
+            for rec in recs[1:]:
+                if 'rows' not in rec:
+                    continue
+                fam, args = rec['family'], tuple(rec['args'])
+                code = cls_of[fam](*args)
+                n = int(code.n_k_d[0])
+                mats = {nm: np.array([[int(ch) for ch in bin(int(h, 16))[2:].zfill(2 * n)] for h in rows], dtype=np.int64).reshape(len(rows), 2 * n)
+                        for nm, rows in rec['rows'].items()}
+                first = {}
+                for nm in ('stabilizers', 'logical_xs', 'logical_zs'):
+                    mine = np.asarray(getattr(code, nm))
+                    if mine.shape != mats[nm].shape:
+                        first[nm] = 'shape %s vs %s' % (list(mats[nm].shape), list(mine.shape))
+                    elif not np.array_equal(mine, mats[nm]):
+                        i = int(np.flatnonzero((mine != mats[nm]).any(axis=1))[0])
+                        first[nm] = {'row': i, 'optimised': rec['rows'][nm][i], 'normal': ''.join(str(int(v)) for v in mine[i])}
+                probs = [p[0] + ': ' + p[1] for p in validity_problems(rec['n_k_d'], mats['stabilizers'], mats['logical_xs'], mats['logical_zs'])]
+                _viol(ctx, 'optimised-mode-matrices', 'under %s the code publishes matrices / n_k_d different from the normal '
+                              'interpreter' % mode, {'family': fam, 'size': list(args), 'interpreter': mode, 'n_k_d': rec['n_k_d'],
+                                                     'n_k_d_normal': [int(v) for v in code.n_k_d], 'validate': rec.get('validate'),
+                                                     'first_difference': first, 'property_on_optimised_matrices': probs[:4]})
+                if on_difference is not None:
+                    on_difference({'family': fam, 'size': list(args), 'interpreter': mode}, rec['n_k_d'], mats['stabilizers'])
 
 
 def extreme_sizes(ctx):
@@ -181,3 +565,11 @@ def extreme_sizes(ctx):
                 ctx.violation('extreme-size-path-syndrome', 'syndrome of path(a, b) is not exactly {a, b}',
                               dict(rep, a=list(a), b=list(b)))
                 break
+
+
+def stage(ctx, name, fn, *a, **kw):
+    """run one pass of a lattice check; a crash of the pass itself is a broken obligation, the other passes still run"""
+    try:
+        fn(ctx, *a, **kw)
+    except Exception:  # noqa
+        ctx.obligation('harness pass %s completed' % name, False, traceback.format_exc())
